@@ -57,14 +57,64 @@ def _verify_one(key):
     return key, obs, dict(smt.STATS)
 
 
+KEY_DEADLINE_S = int(__import__('os').environ.get('PV_KEY_DEADLINE_S', '900'))
+
+
+def _map_with_deadline(keys, procs, seconds):
+    """One forked child per key, at most `procs` at a time, each killed after `seconds`: z3 has been seen to spin inside its
+    string theory without honouring its time or resource limits, and a check must never hang.  A key whose child had to be
+    killed yields one failed obligation ("solver did not return")."""
+    import multiprocessing as mp
+    import time as _t
+    from pv.core import Ob, REFUTED
+    from pv.contract import REG
+    ctx = mp.get_context('fork')
+    todo = list(enumerate(keys))
+    running = {}
+    out = [None] * len(keys)
+
+    def target(key, conn):
+        try:
+            conn.send(_verify_one(key))
+        except BaseException:  # noqa
+            import traceback
+            conn.send(('#error', key, traceback.format_exc()))
+    while todo or running:
+        while todo and len(running) < procs:
+            i, key = todo.pop(0)
+            parent, child = ctx.Pipe(False)
+            p = ctx.Process(target=target, args=(key, child))
+            p.start()
+            running[i] = (p, parent, _t.time(), key)
+        for i, (p, parent, t0, key) in list(running.items()):
+            if parent.poll(0.05):
+                res = parent.recv()
+                p.join(5)
+                del running[i]
+                if res and res[0] == '#error':
+                    raise RuntimeError(res[2])
+                out[i] = res
+            elif _t.time() - t0 > seconds:
+                p.kill()
+                p.join(5)
+                del running[i]
+                q = REG[key].qual if key in REG else key
+                out[i] = (key, [Ob(key + '#solver-returns', 'D', 'smt:z3', REFUTED, seconds,
+                                   'proof failed: the solver did not return within the hard limit of %d s on the verification '
+                                   'conditions of this function (they discharge in seconds on the unchanged code)' % seconds,
+                                   dict(model=None, reason='hard deadline'), functions=[q], replayed=False)], {})
+            elif not p.is_alive() and not parent.poll(0.05):
+                del running[i]
+                raise RuntimeError('verification child for %s died without a result' % key)
+    return out
+
+
 def verify_keys(report, keys, standin=None, procs=8):
     """Discharge the VCs of the functions bound to these contract keys (one process per function)."""
     import multiprocessing as mp
     from pv.contract import REG, load_all
     load_all()
-    ctx = mp.get_context('fork')
-    with ctx.Pool(min(procs, max(1, len(keys)))) as pool:
-        results = pool.map(_verify_one, keys, chunksize=1)
+    results = _map_with_deadline(keys, min(procs, max(1, len(keys))), KEY_DEADLINE_S)
     stats = report.extra.setdefault('solver', dict(queries=0, z3_time=0.0, cvc5_time=0.0, cvc5_queries=0))
     for key, obs, st in results:
         if not obs:
